@@ -126,6 +126,7 @@ func (p *Path) stubByName(name string, fn *ssa.Function, args []Value) (Value, b
 		s := p.sprint(args[1])
 		return p.writeTo(args[0], s), true
 	case "go/format.Source":
+		p.fmtCalls++
 		src := strArg(args[0])
 		ok := gofmtOK(src)
 		if p.branch(ok, "format.Source-ok") {
